@@ -72,7 +72,7 @@ def _with_header(name, body):
 def run_seq(seq):
     """native: process the given (name, text) files one after the other with ONE registry; list of outcome keys"""
     code = (
-        "import sys, json; sys.path.insert(0, '/repo'); sys.path.insert(0, %r)\n"
+        ("import sys, json; sys.path.insert(0, %r); sys.path.insert(0, %%r)\n" % __import__("symx").REPO) +
         "from harness import pipeline as P\n"
         "seq = json.loads(sys.stdin.read())\n"
         "out = []\n"
@@ -90,7 +90,7 @@ def run_seq(seq):
 
 def reimport_orders(perm):
     code = (
-        "import sys, os, json; sys.path.insert(0, '/repo')\n"
+        ("import sys, os, json; sys.path.insert(0, %r)\n" % __import__("symx").REPO) +
         "real = os.listdir\n"
         "perm = %r\n"
         "def fake(p='.'):\n"
